@@ -217,6 +217,15 @@ def rule_entry(facts):
             ok = True
         if x[0] == "bin" and x[1] in ("Ne", "Lt") and _is_zero(x[2]) and _is_errs_len(x[3]):
             ok = True
+        # "there is a first element": errs.first() / last() / get(0) / iter().next() .is_some()
+        if x[0] == "call" and x[1] == "is_some" and len(x[3]) == 1:
+            for y in x[3][0]:
+                if y[0] == "call" and y[1] in ("first", "last", "first_mut", "last_mut") and [set(a) for a in y[3]] == [{("arg", 1, "errs")}]:
+                    ok = True
+                if y[0] == "call" and y[1] == "get" and len(y[3]) == 2 and set(y[3][0]) == {("arg", 1, "errs")} and _is_zero(y[3][1]):
+                    ok = True
+                if y[0] == "call" and y[1] == "next" and len(y[3]) == 1 and all(z[0] == "call" and z[1] in ("iter", "into_iter") and [set(a) for a in z[3]] == [{("arg", 1, "errs")}] for z in y[3][0]) and y[3][0]:
+                    ok = True
     ok = ok and len(ret) == 1
     r.ob(ok)
     if not ok:
